@@ -354,7 +354,7 @@ def check_handler_task(c: Ctx, u: Unit, call: ast.Call, pl: ast.Call) -> None:
                 c.fail(u, f'{what} does not join the task: {U(n)[:70]}', 'execute_handler can return while the (cancelled / timed-out) handler coroutine is still running: the lock is released and the next event\'s handler overlaps it', node=n)
 
 
-@ob('C06.4', 'DOM', 'the branch of _execute_handlers that runs handlers as concurrent tasks is guarded by self.parallel_handlers')
+@ob('C06.4', 'DOM', 'handlers of one event run as concurrent tasks only under self.parallel_handlers (a task that is awaited to completion before the next one is created is not concurrent)')
 def c06_4(c: Ctx) -> None:
     u, sites = exec_handler_sites(c)
     g = c.cfg(u)
